@@ -486,14 +486,20 @@ class Acceptor:
                              "dispatched before it: %s" % (key, e, self.cur["post"]["e"], self.cur["post"]["id"], rj.what))
             raise
         c = self.cur
-        # order within the dispatch: every handler before it in the snapshot must be skippable
+        # order within the dispatch (the property fixes descending priority; the order among equal priorities is the
+        # model's business): a handler of strictly greater priority that is still registered and whose condition
+        # holds must not be passed over; skippable handlers that were passed are out of the dispatch
         idx = [x["key"] for x in c["todo"]].index(key)
+        keep = []
         for x in c["todo"][:idx]:
-            if x["key"] in self.live and cond_ok(x["cond"], kw_merge(c["kw"], x["kw"])):
-                raise Reject("handler-order", "handler %d (priority %d, registration #%d) called before (or instead of) "
-                             "handler %d (priority %d, registration #%d) in the dispatch of event %d" %
-                             (key, r["prio"], r["seq"], x["key"], x["prio"], x["seq"], e))
-        c["todo"] = c["todo"][idx + 1:]
+            if x["key"] not in self.live:
+                keep.append(x)          # removed before its turn: the property leaves it open whether it is called
+            elif cond_ok(x["cond"], kw_merge(c["kw"], x["kw"])):
+                if x["prio"] > r["prio"]:
+                    raise Reject("handler-order", "handler %d (priority %d) called before (or instead of) handler %d "
+                                 "(priority %d) in the dispatch of event %d" % (key, r["prio"], x["key"], x["prio"], e))
+                keep.append(x)
+        c["todo"] = keep + c["todo"][idx + 1:]
         c["done"].append(r)
         want = kw_merge(c["kw"], r["kw"])
         if want != kw:
@@ -667,7 +673,20 @@ def describe(case):
     return "turns=%d ctx=%s" % (len(case["turns"]), CTX_NAMES[case["turns"][0][0]])
 
 
+def widened_search(seed):
+    """oracle-only search with thorough-size scripts, used when a proof or the correspondence breaks"""
+    import random
+    rng = random.Random((seed * 7919) ^ 0xC01)
+    for i in range(6000):
+        c = gen_case(rng, "thorough", i)
+        o = run_impl(c)
+        for f in oracle(c, o):
+            if f["sig"] != "fastpath-drop-late-registration":
+                return {"sig": f["sig"], "what": f["what"], "case": c, "suite": "dispatch"}
+    return None
+
+
 SUITES = [
     Suite("dispatch", gen_case, run_impl, HDR, coq_case, oracle, shrink, nontrivial,
-          {"quick": 1500, "thorough": 40000}, worker_init=worker_init, shard=125, describe=describe),
+          {"quick": 1500, "thorough": 20000}, worker_init=worker_init, shard=125, describe=describe),
 ]
